@@ -2,6 +2,7 @@ package util
 
 import (
 	"strings"
+	"unicode/utf8"
 )
 
 func CleanUTF8(s []byte) []byte {
@@ -26,4 +27,22 @@ func findLastEndOfASCII(s []byte) int {
 		}
 	}
 	return 0
+}
+
+// ToValidUTF8Strings returns the given strings with invalid UTF-8 sequences replaced, e.g. for use as metric label values
+//
+// The input slice is returned as it is if all strings are valid (the normal case)
+func ToValidUTF8Strings(values []string) []string {
+	for i, v := range values {
+		if utf8.ValidString(v) {
+			continue
+		}
+		cleaned := make([]string, len(values))
+		copy(cleaned, values[:i])
+		for j := i; j < len(values); j++ {
+			cleaned[j] = strings.ToValidUTF8(values[j], "\uFFFD")
+		}
+		return cleaned
+	}
+	return values
 }
